@@ -217,3 +217,20 @@ Print Assumptions c13_parse_shape.
 Theorem c13_empty_descriptor_refused : parse [] = None.
 Proof. exact parse_empty. Qed.
 Print Assumptions c13_empty_descriptor_refused.
+
+(* identifiers written without backslashes: trailing spaces before the delimiter (or the end) are
+   not part of the key, inner spaces are.  (c0 starts the identifier, l is its last character.) *)
+Theorem c13_plain_trailing_spaces_trimmed (c0 : N) (k : bytes) (l : N) (n : nat) (r : bytes) :
+  is_idchar1 c0 = true -> (c0 =? 92)%N = false ->
+  Forall (fun c => is_idchar c = true /\ (c =? 92)%N = false) (k ++ [l]) -> (l =? 32)%N = false ->
+  stops r ->
+  scan ((c0 :: k ++ [l]) ++ repeat 32%N n ++ r) = (T_ID (c0 :: k ++ [l]), r).
+Proof. exact (plain_trailing_spaces_trimmed c0 k l n r). Qed.
+Print Assumptions c13_plain_trailing_spaces_trimmed.
+
+(* with escapes the code's trim compares a destination index with a source index (D35): one
+   unescaped trailing space survives here; the manual is silent, the model follows the code *)
+Theorem c13_trim_after_escapes_example :
+  scan [92; 46; 92; 46; 97; 32; 32]%N = (T_ID [46; 46; 97; 32]%N, []).
+Proof. exact trim_after_escapes_example. Qed.
+Print Assumptions c13_trim_after_escapes_example.
